@@ -261,7 +261,18 @@ func genC19(r *Run) {
 			// 4. single edits of a parsed set
 			if pl, err := rfc1035label.FromBytes(m); err == nil {
 				ed := append([]string{}, pl.Labels...)
-				switch r.Rng.Intn(5) {
+				switch r.Rng.Intn(7) {
+				case 5, 6: // a change of letter case only (names are compared octet by octet)
+					if len(ed) > 0 {
+						i := r.Rng.Intn(len(ed))
+						if t, ok := toggleCase(ed[i]); ok {
+							ed[i] = t
+						} else {
+							ed[i] = "Edited.Example"
+						}
+					} else {
+						ed = append(ed, "Y")
+					}
 				case 3: // same names in another order
 					if len(ed) > 1 {
 						i, j := r.Rng.Intn(len(ed)), r.Rng.Intn(len(ed))
